@@ -304,7 +304,14 @@ def dataset_like(sample_dataset: xarray.Dataset, new_dataset: xarray.Dataset) ->
     _update_no_clobber(sample_dataset.encoding, like_dataset.encoding)
     for key, sample_variable in sample_dataset.variables.items():
         new_variable = like_dataset.variables[key]
-        _update_no_clobber(sample_variable.attrs, new_variable.attrs)
+        # An attribute that has been decoded in to the encoding of the new variable,
+        # such as `_FillValue` when the sample was opened with mask_and_scale=False,
+        # must not be added back as an attribute. The variable could not be saved.
+        sample_attrs = {
+            name: value for name, value in sample_variable.attrs.items()
+            if name not in new_variable.encoding
+        }
+        _update_no_clobber(sample_attrs, new_variable.attrs)
         _update_no_clobber(sample_variable.encoding, new_variable.encoding)
 
     # Done!
